@@ -1,5 +1,6 @@
 import Tickit.Model.Rect
 import Tickit.Model.Width
+import Tickit.Gen.LineChars
 /-
   The *abstract* render buffer the window layer needs (properties C01, C02).
 
@@ -15,38 +16,50 @@ import Tickit.Model.Width
 namespace Tickit
 namespace WinRB
 
-/-- The attributes of `TickitPen` the window engines use: colours and bold.  `none` = attribute not set. -/
+/-- The attributes of `TickitPen` the window engines use: colours, bold and reverse video.  `none` = attribute not
+    set. -/
 structure Pen where
   fg : Option Int := none
   bg : Option Int := none
   b  : Option Bool := none
+  rv : Option Bool := none
 deriving DecidableEq, Repr, Inhabited
 
 /-- `tickit_pen_copy(dst, src, overwrite)`: attribute by attribute, `src` wins where both have it iff
     `overwrite` (an equal value is "copied" either way). -/
 def Pen.copy (dst src : Pen) (overwrite : Bool) : Pen :=
   if overwrite then
-    { fg := src.fg.orElse (fun _ => dst.fg), bg := src.bg.orElse (fun _ => dst.bg), b := src.b.orElse (fun _ => dst.b) }
+    { fg := src.fg.orElse (fun _ => dst.fg), bg := src.bg.orElse (fun _ => dst.bg), b := src.b.orElse (fun _ => dst.b),
+      rv := src.rv.orElse (fun _ => dst.rv) }
   else
-    { fg := dst.fg.orElse (fun _ => src.fg), bg := dst.bg.orElse (fun _ => src.bg), b := dst.b.orElse (fun _ => src.b) }
+    { fg := dst.fg.orElse (fun _ => src.fg), bg := dst.bg.orElse (fun _ => src.bg), b := dst.b.orElse (fun _ => src.b),
+      rv := dst.rv.orElse (fun _ => src.rv) }
 
 /-- What reaches the terminal for one cell: a glyph (32 = blank) and the pen as `tickit_term_setpen` establishes it
-    (absent colour = -1, absent bold = off). -/
+    (absent colour = -1, absent bold / reverse video = off). -/
 structure Cell where
   glyph : Nat
   fg : Int
   bg : Int
   b : Bool
+  rv : Bool := false
 deriving DecidableEq, Repr, Inhabited
 
 def Cell.ofPen (p : Pen) (glyph : Nat) : Cell :=
-  { glyph := glyph, fg := p.fg.getD (-1), bg := p.bg.getD (-1), b := p.b.getD false }
+  { glyph := glyph, fg := p.fg.getD (-1), bg := p.bg.getD (-1), b := p.b.getD false, rv := p.rv.getD false }
+
+/-- `tickit_pen_equiv`: attribute by attribute the *values* agree, an absent attribute counting as its default. -/
+def Pen.equiv (p q : Pen) : Bool := decide (Cell.ofPen p 0 = Cell.ofPen q 0)
+
+/-- The pen `copyrect` draws a copied cell with: `savepen; setpen(cell->pen)` — the source cell's pen, the attributes
+    it lacks completed from the buffer's current pen (the pen of the frame just pushed). -/
+def Pen.complete (p cur : Pen) : Pen := Pen.copy (Pen.copy {} p true) cur false
 
 /-- A blank in pen `p` (an ERASE cell, or the fill of a scrolled-in area). -/
 def Cell.blank (p : Pen) : Cell := Cell.ofPen p 32
 
 /-- The cell of a terminal position nothing was ever written to. -/
-def Cell.never : Cell := ⟨32, -1, -1, false⟩
+def Cell.never : Cell := ⟨32, -1, -1, false, false⟩
 
 /-- What a buffer cell holds.  A cell of an erase, a character or a text of single-column characters is `plain`: what
     reaches the terminal is known when it is written.  A cell of a text with double-width or combining characters
@@ -57,6 +70,8 @@ def Cell.never : Cell := ⟨32, -1, -1, false⟩
 inductive CellV where
   | plain (c : Cell)
   | text (id : Nat) (pen : Pen) (s : List Nat) (k : Int)
+  /-- a LINE cell: the pen and the mask of line segments (two bits per direction) accumulated so far -/
+  | line (pen : Pen) (mask : Nat)
 deriving Repr, Inhabited
 
 /-- Columns of a text: for every grapheme (a code point of positive width with the zero-width code points that
@@ -104,6 +119,9 @@ structure RB where
   stack : List Frame
   /-- identity of the next text write -/
   nextId : Nat := 0
+  /-- The pen every cell was last written with, with its *absent* attributes (a `plain` cell only keeps what reaches the
+      terminal): what `copyrect` completes from the current pen when it copies the cell. -/
+  cpen : Int → Int → Pen := fun _ _ => {}
 deriving Inhabited
 
 /-- `tickit_renderbuffer_new`. -/
@@ -168,12 +186,15 @@ def RB.putRun (rb : RB) (line col n : Int) (f : Int → Option CellV) : RB :=
   let L := line + rb.xl
   let C0 := col + rb.xc
   { rb with cells := fun l c =>
-      if l = L ∧ C0 ≤ c ∧ c < C0 + n ∧ rb.writable l c then f (c - C0) else rb.cells l c }
+      if l = L ∧ C0 ≤ c ∧ c < C0 + n ∧ rb.writable l c then f (c - C0) else rb.cells l c,
+            cpen := fun l c =>
+      if l = L ∧ C0 ≤ c ∧ c < C0 + n ∧ rb.writable l c then rb.pen else rb.cpen l c }
 
 /-- The same for a rectangle of cells (the `for(line …)` loop of `eraserect` / `skiprect`). -/
 def RB.putRect (rb : RB) (rect : Rect) (v : Option CellV) : RB :=
   let R := rect.translate rb.xl rb.xc
-  { rb with cells := fun l c => if R.memb l c ∧ rb.writable l c then v else rb.cells l c }
+  { rb with cells := fun l c => if R.memb l c ∧ rb.writable l c then v else rb.cells l c,
+            cpen := fun l c => if R.memb l c ∧ rb.writable l c then rb.pen else rb.cpen l c }
 
 /-- `tickit_renderbuffer_eraserect`. -/
 def RB.eraseRect (rb : RB) (rect : Rect) : RB := rb.putRect rect (some (.plain (Cell.blank rb.pen)))
@@ -195,6 +216,116 @@ def RB.charAt (rb : RB) (line col : Int) (cp : Nat) : RB :=
 /-- `tickit_renderbuffer_clear`: `erase(rb, line, 0, rb->cols)` for every line, through the translation. -/
 def RB.clear (rb : RB) : RB := rb.eraseRect ⟨0, 0, rb.lines, rb.cols⟩
 
+/-! ### line segments (`linecell`, `tickit_renderbuffer_hline_at`, `tickit_renderbuffer_vline_at`) -/
+
+/-- `linecell(rb, line, col, bits)`: where the buffer lets it, the cell becomes a LINE cell; segments merge into a LINE
+    cell already there (whose pen is replaced unless equivalent to the current one). -/
+def RB.linecell (rb : RB) (line col : Int) (bits : Nat) : RB :=
+  let L := line + rb.xl
+  let C := col + rb.xc
+  if rb.writable L C then
+    let v : CellV := match rb.cells L C with
+      | some (.line p m) => .line (if Pen.equiv p rb.pen then p else rb.pen) (m ||| bits)
+      | _ => .line rb.pen bits
+    { rb with cells := fun l c => if l = L ∧ c = C then some v else rb.cells l c,
+              cpen := fun l c => if l = L ∧ c = C then rb.pen else rb.cpen l c }
+  else rb
+
+/-- The `linecell` calls of `hline_at` / `vline_at`, in order: position along the line and bits.  `fwd`, `back`: the
+    bits towards the end and towards the start (`east`, `west` / `south`, `north`). -/
+def lineCalls (start stop : Int) (fwd back : Nat) (caps : Nat) : List (Int × Nat) :=
+  (start, fwd ||| (if caps &&& 1 ≠ 0 then back else 0)) ::
+    ((List.range (stop - 1 - start).toNat).map fun (i : Nat) => (start + 1 + (i : Int), fwd ||| back)) ++
+    [(stop, (if caps &&& 2 ≠ 0 then fwd else 0) ||| back)]
+
+/-- `tickit_renderbuffer_hline_at(rb, line, startcol, endcol, style, caps)`. -/
+def RB.hlineAt (rb : RB) (line startcol endcol : Int) (style caps : Nat) : RB :=
+  (lineCalls startcol endcol (style <<< Gen.LineChars.shiftEast) (style <<< Gen.LineChars.shiftWest) caps).foldl
+    (fun rb x => rb.linecell line x.1 x.2) rb
+
+/-- `tickit_renderbuffer_vline_at(rb, startline, endline, col, style, caps)`. -/
+def RB.vlineAt (rb : RB) (startline endline col : Int) (style caps : Nat) : RB :=
+  (lineCalls startline endline (style <<< Gen.LineChars.shiftSouth) (style <<< Gen.LineChars.shiftNorth) caps).foldl
+    (fun rb x => rb.linecell x.1 col x.2) rb
+
+/-! ### `tickit_renderbuffer_copyrect` / `tickit_renderbuffer_moverect`
+
+  `copyrect(dst, src, dstrect, srcrect, copy_skip)` of src/renderbuffer.c reads the source rectangle in *buffer*
+  coordinates (`src->cells[line][col]`: the translation is not applied, nothing is checked against the buffer's size) and
+  draws every run at `(line + lineoffs, col + coloffs)` through the destination's translation, clip and masks.  It walks
+  the lines bottom-up when `lineoffs > 0` and the columns right-to-left when `lineoffs = 0 ∧ coloffs > 0`, so that, in a
+  buffer without translation, a cell is never read after the copy itself has overwritten it: the effect is that of a
+  simultaneous copy of the rectangle as it was before the call (property C13).  The direction is chosen from the
+  *untranslated* offsets; under a translation the real displacement `(lineoffs + xl, coloffs + xc)` can point the other way,
+  and then what is copied depends on the run structure of the line (the `TODO` at the head of `copyrect`).  `CopyDomain`
+  says when the call is the simultaneous copy: the source rectangle lies inside the buffer (otherwise C reads outside the
+  cell arrays) and the direction walked is safe for the real displacement (or the two rectangles do not overlap).  The
+  handler programs of the window engines keep to this domain (the harness skips a call outside it, as does `copyRect`
+  below): an assumption, listed in engines.d/C02.json. -/
+
+/-- The walk of `copyrect` never reads a cell it has already written (`lo`, `co`: `lineoffs`, `coloffs`). -/
+def safeDirection (src : Rect) (lo co dl dc : Int) : Bool :=
+  decide ((dl.natAbs : Int) ≥ src.lines) || decide ((dc.natAbs : Int) ≥ src.cols) ||
+  (decide (dl > 0) && decide (lo > 0)) || (decide (dl < 0) && decide (lo ≤ 0)) ||
+  (decide (dl = 0) &&
+    ((decide (dc > 0) && decide (lo = 0) && decide (co > 0)) ||
+     (decide (dc < 0) && !(decide (lo = 0) && decide (co > 0))) || decide (dc = 0)))
+
+def RB.copyDomain (rb : RB) (dest src : Rect) : Bool :=
+  decide (0 ≤ src.top) && decide (src.bottom ≤ rb.lines) && decide (0 ≤ src.left) && decide (src.right ≤ rb.cols) &&
+  decide (0 < src.lines) && decide (0 < src.cols) &&
+  safeDirection src (dest.top - src.top) (dest.left - src.left) (dest.top - src.top + rb.xl) (dest.left - src.left + rb.xc)
+
+/-- What a destination cell holding `old` receives from a source cell holding `v` (written with pen `sp`); text writes
+    are renamed by `off` (the pieces of one copy form runs of their own: a double-width character is shown only if both
+    its columns arrived in the same call).  Returns the cell and the pen it was drawn with. -/
+def RB.transfer (rb : RB) (off : Nat) (v : Option CellV) (sp : Pen) (old : Option CellV) : Option CellV × Pen :=
+  match v with
+  | none => (none, rb.pen)                                   -- `skip(dst, …)`: `copy_skip` is true for both entry points
+  | some (.plain x) => (some (.plain (Cell.ofPen (Pen.complete sp rb.pen) x.glyph)), Pen.complete sp rb.pen)
+  | some (.text id pen s k) => (some (.text (off + id) (Pen.complete pen rb.pen) s k), Pen.complete pen rb.pen)
+  | some (.line pen m) =>
+    let p := Pen.complete pen rb.pen
+    match old with
+    | some (.line p0 m0) => (some (.line (if Pen.equiv p0 p then p0 else p) (m0 ||| m)), p)
+    | _ => (some (.line p m), p)
+
+/-- `tickit_renderbuffer_copyrect(rb, dest, src)` (only `dest`'s position is read). -/
+def RB.copyRect (rb : RB) (dest src : Rect) : RB :=
+  let lo := dest.top - src.top
+  let co := dest.left - src.left
+  if lo = 0 ∧ co = 0 then rb                                 -- `if(samerb && lineoffs == 0 && coloffs == 0) return;`
+  else if !rb.copyDomain dest src then rb
+  else
+    let dl := lo + rb.xl
+    let dc := co + rb.xc
+    { rb with
+      cells := fun L C =>
+        if src.memb (L - dl) (C - dc) ∧ rb.writable L C then
+          (rb.transfer rb.nextId (rb.cells (L - dl) (C - dc)) (rb.cpen (L - dl) (C - dc)) (rb.cells L C)).1
+        else rb.cells L C
+      cpen := fun L C =>
+        if src.memb (L - dl) (C - dc) ∧ rb.writable L C then
+          (rb.transfer rb.nextId (rb.cells (L - dl) (C - dc)) (rb.cpen (L - dl) (C - dc)) (rb.cells L C)).2
+        else rb.cpen L C
+      nextId := 2 * rb.nextId }
+
+/-- `tickit_renderbuffer_moverect(rb, dest, src)`: the copy, then `skiprect` of every rectangle of
+    `{src} − {dest.top, dest.left, src.lines, src.cols}` (through the translation, unlike the source of the copy). -/
+def RB.moveRect (rb : RB) (dest src : Rect) : RB :=
+  if dest.top = src.top ∧ dest.left = src.left then rb       -- nothing copied, nothing vacated
+  else if !rb.copyDomain dest src then rb
+  else
+    let rb1 := rb.copyRect dest src
+    let gone : Rect := ⟨dest.top, dest.left, src.lines, src.cols⟩
+    { rb1 with
+      cells := fun L C =>
+        if src.memb (L - rb1.xl) (C - rb1.xc) ∧ !gone.memb (L - rb1.xl) (C - rb1.xc) ∧ rb1.writable L C then none
+        else rb1.cells L C
+      cpen := fun L C =>
+        if src.memb (L - rb1.xl) (C - rb1.xc) ∧ !gone.memb (L - rb1.xl) (C - rb1.xc) ∧ rb1.writable L C then rb1.pen
+        else rb1.cpen L C }
+
 /-- What a handler's drawing program may contain. -/
 inductive DrawOp where
   | eraseRect (r : Rect)
@@ -205,6 +336,14 @@ inductive DrawOp where
   | setPen (p : Pen)
   | translate (d r : Int)
   | clip (r : Rect)
+  | hline (line startcol endcol : Int) (style caps : Nat)
+  | vline (startline endline col : Int) (style caps : Nat)
+  | copyRect (dest src : Rect)
+  | moveRect (dest src : Rect)
+  /-- `tickit_renderbuffer_save` / `savepen` / `restore` -/
+  | save
+  | savepen
+  | restore
 deriving Repr, Inhabited
 
 def RB.draw (rb : RB) : DrawOp → RB
@@ -216,8 +355,33 @@ def RB.draw (rb : RB) : DrawOp → RB
   | .setPen p => rb.setpen (some p)
   | .translate d r => rb.translate d r
   | .clip r => rb.clipTo r
+  | .hline l c0 c1 st caps => rb.hlineAt l c0 c1 st caps
+  | .vline l0 l1 c st caps => rb.vlineAt l0 l1 c st caps
+  | .copyRect d s => rb.copyRect d s
+  | .moveRect d s => rb.moveRect d s
+  | .save => rb.save
+  | .savepen => rb.savepen
+  | .restore => rb.restore
 
-def RB.run (rb : RB) (prog : List DrawOp) : RB := prog.foldl RB.draw rb
+/-- Pop the `n` frames a handler left on the stack. -/
+def RB.unwind : Nat → RB → RB
+  | 0, rb => rb
+  | n + 1, rb => RB.unwind n rb.restore
+
+/-- A handler's program.  "Expose handlers ... do not pop render-buffer frames they did not push" (the standing
+    assumption of C01/C02): `n` counts the frames the handler has pushed and not yet popped; a `restore` with none of its
+    own on the stack is not executed, and the frames it leaves behind are popped when it returns. -/
+def RB.runAux : Nat → RB → List DrawOp → RB
+  | n, rb, [] => RB.unwind n rb
+  | n, rb, .restore :: rest =>
+    match n with
+    | 0 => RB.runAux 0 rb rest
+    | n + 1 => RB.runAux n rb.restore rest
+  | n, rb, .save :: rest => RB.runAux (n + 1) rb.save rest
+  | n, rb, .savepen :: rest => RB.runAux (n + 1) rb.savepen rest
+  | n, rb, op :: rest => RB.runAux n (rb.draw op) rest
+
+def RB.run (rb : RB) (prog : List DrawOp) : RB := RB.runAux 0 rb prog
 
 /-- Does cell `(l, c)` hold column `k` of text write `id`? -/
 def RB.holds (rb : RB) (l c : Int) (id : Nat) (k : Int) : Bool :=
@@ -230,6 +394,7 @@ def RB.resolve (rb : RB) (l c : Int) : Option Cell :=
   match rb.cells l c with
   | none => none
   | some (.plain x) => some x
+  | some (.line pen m) => some (Cell.ofPen pen (Gen.LineChars.linemaskToChar.getD m 0))
   | some (.text id pen s k) =>
     match colGlyph s k with
     | none => some (Cell.blank pen)
